@@ -77,7 +77,21 @@ theorem activity_table : ∀ (nc td to te tm q : Bool) (col : UseColor),
   intro nc td to te tm q col
   cases nc <;> cases td <;> cases to <;> cases te <;> cases tm <;> cases q <;> cases col <;> decide
 
+/-- **`--quiet` also silences what is drawn past the streams** (spinners, progress bars): under `--quiet` nothing of the
+kind exists, whatever the terminal, colour and environment settings -/
+theorem quiet_no_progress (c : Config) (hq : c.quiet = true) : progressDrawn c = false := by
+  simp [progressDrawn, hq]
+
+/-- without `--quiet` they are drawn exactly on a styled terminal (so never into a pipe unless `--terminal` and colour
+are forced) -/
+theorem progress_iff (c : Config) (hq : c.quiet = false) :
+    progressDrawn c = ((errStream c).style && (errStream c).term) := by
+  have : ({ c with quiet := false } : Config) = c := by cases c; simp_all
+  simp [progressDrawn, hq, this]
+
 /-! ## Non-vacuity -/
+example : progressDrawn ⟨false, false, false, true, .auto, false, false⟩ = true := by decide
+example : progressDrawn ⟨false, false, false, true, .auto, false, true⟩ = false := by decide
 example : emitted ⟨false, false, false, false, .auto, true, false⟩ .out
     [⟨.err, .chatter, [1], true⟩, ⟨.out, .payload, [2, 3], true⟩, ⟨.err, .diagnostic, [4], true⟩] = [2, 3] := by decide
 example : emitted ⟨false, false, false, false, .always, false, false⟩ .out [⟨.out, .payload, [2], true⟩]
